@@ -10,6 +10,7 @@ import (
 	"io"
 	"log"
 	"math/rand"
+	"os"
 	"sort"
 	"strings"
 	"sync"
@@ -58,7 +59,13 @@ type c19RetryObs struct {
 	Note     string   `json:"note,omitempty"`
 }
 
-var c19OutCode = map[string]int{"ok": 0, "plain": 1, "noretry": 2, "noretry-wrapped": 2, "canceled": 3, "ctx": 3}
+var c19OutCode = map[string]int{"ok": 0, "plain": 1, "deadline": 1, "os-deadline": 1, "eof": 1, "noretry": 2, "noretry-wrapped": 2, "canceled": 3, "ctx": 3}
+
+// c19PlainKinds are the failures that are to be retried ("plain" for the model): any error that is
+// neither ErrNoRetry nor context.Canceled - in particular a time-out local to the attempt
+// (context.DeadlineExceeded of an inner context, os.ErrDeadlineExceeded of a connection) while the
+// caller's context is still live.
+var c19PlainKinds = []string{"plain", "plain", "deadline", "os-deadline", "eof"}
 
 func c19Err(out string, ctx context.Context) error {
 	switch out {
@@ -66,6 +73,12 @@ func c19Err(out string, ctx context.Context) error {
 		return nil
 	case "plain":
 		return errors.New("plain failure")
+	case "deadline":
+		return fmt.Errorf("order: talking to the CA: %w", context.DeadlineExceeded)
+	case "os-deadline":
+		return fmt.Errorf("order: read: %w", os.ErrDeadlineExceeded)
+	case "eof":
+		return fmt.Errorf("order: %w", io.ErrUnexpectedEOF)
 	case "noretry":
 		return certmagic.ErrNoRetry{Err: errors.New("do not retry")}
 	case "noretry-wrapped":
@@ -272,7 +285,7 @@ func c19RetryPlans(tier string, r *rand.Rand) [][]c19RetryPlan {
 			plain := func(n int) []c19Step {
 				var s []c19Step
 				for i := 0; i < n; i++ {
-					s = append(s, c19Step{Out: "plain", DurMs: r.Intn(12)})
+					s = append(s, c19Step{Out: c19PlainKinds[r.Intn(len(c19PlainKinds))], DurMs: r.Intn(12)})
 				}
 				return s
 			}
@@ -297,7 +310,7 @@ func c19RetryPlans(tier string, r *rand.Rand) [][]c19RetryPlan {
 			n := r.Intn(6)
 			var s []c19Step
 			for j := 0; j < n; j++ {
-				s = append(s, c19Step{Out: "plain", DurMs: r.Intn(25)})
+				s = append(s, c19Step{Out: c19PlainKinds[r.Intn(len(c19PlainKinds))], DurMs: r.Intn(25)})
 			}
 			s = append(s, c19Step{Out: []string{"ok", "noretry", "canceled", "noretry-wrapped"}[r.Intn(4)], DurMs: r.Intn(25)})
 			batch = append(batch, c19RetryPlan{Kind: "direct", TableMs: tb, Steps: s})
@@ -306,7 +319,7 @@ func c19RetryPlans(tier string, r *rand.Rand) [][]c19RetryPlan {
 		for k := 0; k <= 3; k++ {
 			var s []c19Step
 			for j := 0; j < k; j++ {
-				s = append(s, c19Step{Out: "plain", DurMs: r.Intn(8)})
+				s = append(s, c19Step{Out: c19PlainKinds[r.Intn(len(c19PlainKinds))], DurMs: r.Intn(8)})
 			}
 			batch = append(batch, c19RetryPlan{Kind: "async-obtain", TableMs: tb, Steps: append(append([]c19Step{}, s...), c19Step{Out: "ok"})})
 			if k%2 == 1 {
